@@ -60,10 +60,8 @@ class FunctionNode(ConfigDict):
 
             return self
 
-        try:
-            new_func = (self._func != other._func)
-        except AttributeError:
-            new_func = False
+        # (only another function node has a target - a plain mapping with a key called "_func" has an argument of that name)
+        new_func = isinstance(other, FunctionNode) and (self._func != other._func)
 
         if new_func:
             if not other.ayns.has_priority_over(self, if_equal=True):
